@@ -196,6 +196,7 @@ def run_path(contract, func, loader, contracts_by_target, variant, prefix):
             contract.mustfail(v, variant, v.env, outcome)
         for ob in ctx.obligations:
             ob.meta.setdefault("inputs", v.inputs)
+            ob.meta.setdefault("ghost_defs", list(getattr(ctx, "ghost_defs", [])))
     except PathEnd:
         pr.status = "ended"
     except Infeasible:
@@ -328,7 +329,90 @@ def find_core(ob, timeout_ms=120000):
     return None
 
 
+MATH_SYMBOLS = ("exp", "sqrt", "arccos", "arcsin", "arctan", "round", "log", "cos", "sin", "unit_component", "cdist_")
+
+
+def _mentions_uninterpreted_math(fs):
+    """does the query mention one of the real functions that the encoding keeps uninterpreted (only a few algebraic axioms)?  A
+    counter-model may then interpret exp / sqrt / round ... in a way no real implementation does."""
+    seen, stack = set(), list(fs)
+    while stack:
+        e = stack.pop()
+        i = e.get_id()
+        if i in seen:
+            continue
+        seen.add(i)
+        if z3.is_app(e) and e.decl().kind() == z3.Z3_OP_UNINTERPRETED and e.num_args() > 0:
+            nm = e.decl().name().lower()
+            if any(nm == m or nm.startswith(m) for m in MATH_SYMBOLS):
+                return nm
+        if z3.is_quantifier(e):
+            stack.append(e.body())
+        else:
+            stack.extend(e.children())
+    return None
+
+
+def _confirm_refutation(ob, fs, timeout_ms):
+    """A `sat` answer is a counter-model of the verification condition as generated.  Where the contract uses ghost functions that
+    are defined by recursion and unfolded only at the indices the proof needs (token counters, window ranks, legend counters), the
+    generated hypotheses do not pin those functions down elsewhere, and a counter-model may simply give them values their definition
+    forbids.  Such a refutation is therefore re-checked on a small scope with the definitions unfolded COMPLETELY (every index up to
+    the bound): only if a counter-model survives is the obligation reported as refuted; otherwise the answer is 'unknown'."""
+    defs = ob.meta.get("ghost_defs") or []
+    if not defs:
+        return True
+    scope = []
+    for ent in (ob.meta.get("inputs") or {}).values():
+        t = ent[1] if ent[0] in ("int", "vec") else None
+        if t is not None and ent[0] == "vec":
+            t = zint(t)
+        if t is not None and z3.is_expr(t) and t.sort() == z3.IntSort() and not z3.is_int_value(t):
+            scope.append(t)
+    for bound in (3, 5):
+        s = z3.Solver()
+        s.set("timeout", min(timeout_ms, 10000))
+        s.add(*fs)
+        s.add(*[x <= bound for x in scope])
+        for g in defs:
+            for k in range(0, bound + 2):
+                s.add(*g(z3.IntVal(k)))
+        r = s.check()
+        if r == z3.sat:
+            try:
+                m = s.model()
+                ob.z3model = m
+                ob.model = {str(d): str(m[d]) for d in m.decls()}
+            except Exception:
+                pass
+            ob.backend += f"+confirmed-with-complete-ghost-unfolding(<= {bound})"
+            return True
+    ob.result = "unknown"
+    ob.reason = "the solver's counter-model did not survive the complete unfolding of the ghost definitions on small scopes (spurious: " \
+                "the lazily unfolded definitions left the ghost functions unconstrained)"
+    return False
+
+
 def discharge(ob: Obligation, timeout_ms=None, try_cvc5=True):
+    """prove hyps |- goal.  result in {'proved','refuted','unknown'}"""
+    r = _discharge(ob, timeout_ms, try_cvc5)
+    if r == "refuted" and ob.kind != "mustfail":
+        fs = list(ob.hyps) + [z3.Not(ob.goal)]
+        if _uses_strings(fs):
+            fs = lib_py.string_axioms(fs) + fs
+        t0 = time.time()
+        if not _confirm_refutation(ob, fs, timeout_ms or Z3_TIMEOUT_MS):
+            r = ob.result
+        else:
+            sym = _mentions_uninterpreted_math([ob.goal])
+            if sym:
+                ob.meta["spurious_risk"] = f"the verification condition mentions the uninterpreted real function `{sym}`: a counter-model may " \
+                                           "interpret it as no implementation does; believed only if a replayed input fails on the real code"
+        ob.seconds += time.time() - t0
+    return r
+
+
+def _discharge(ob: Obligation, timeout_ms=None, try_cvc5=True):
     """prove hyps |- goal.  result in {'proved','refuted','unknown'}"""
     timeout_ms = timeout_ms or Z3_TIMEOUT_MS
     if ob.kind == "mustfail":
